@@ -211,6 +211,7 @@ func (it *Interp) resetPath(prefix []int) {
 	it.wrapped = map[*Object]Value{}
 	it.fixed = map[string]*Term{}
 	it.gzipUnder = map[*Object]Value{}
+	it.jsonSeq = 0
 	it.pathNotes = nil
 	it.stack = nil
 	it.model = nil
